@@ -585,3 +585,135 @@ Example C03_nonvacuous_nesterov :
   nest_witness_ok 1 (9 # 4) /\ nest_hist_ok true (mk_nest 1 [0] [0]) [NUpdate (9 # 4) [1]; NReset; NUpdate (5 # 2) [2]] /\
   n_lambda (fold_left (nest_step true) [NUpdate (9 # 4) [1]; NReset; NUpdate (5 # 2) [2]] (mk_nest 1 [0] [0])) == 7 # 4.
 Proof. unfold nest_witness_ok. simpl. repeat split; try exact I; vm_compute; try reflexivity; discriminate. Qed.
+
+(* ================================================================================================================== *)
+(* Extension WHOLE (C03_Whole_Defs.v / C03_Whole.v): ONE model of a whole RQB / FPBA run -- the abstract oracles of the LOOP
+   extension instantiated with the bundle operations [step] of C03_Defs.v, a first-order oracle [ev] of the objective (the point
+   evaluated, a sub-gradient there, the value), proximal / delta / smeared_e / smeared_s / econverged / sconverged, proximity_t
+   and the Nesterov sequence.  Remaining oracles: the QP answer [qp] (more than two rows), the rows surviving delete_largest [kp],
+   [ev], the square root of the sequence [sq]; each indexed by the number of answers consumed (every history).
+   Oracle conditions: qp_ok (right length, in the simplex, entries below epsilon0 exactly zero), ev_ok (convexity: every answer
+   is a point with its value and a sub-gradient there), keep_ok (delete_largest removes its two rows -- only for the capacity
+   clause).  max_size >= 3: with max_size = 2 the aggregation would use the multipliers of the closed form for two rows, which
+   are not clean.  tol = epsilon * sqrt(n). *)
+From LN Require Import C03_Whole_Defs C03_Whole.
+
+(* (1) the operations as the loops issue them: one pass of the curve search (solve + evaluation) keeps WInv (Inv + nothing
+   rejected), leaves the multipliers solved for the current rows, reports the centre value and delta >= 0; after a pass,
+   moveto / append / the momentum step are ACCEPTED and keep WInv -- and, under keep_ok, size() < capacity() *)
+Theorem C03_whole_ops : forall (f : vec -> Q) (n : nat) eps0 tol two qp kp ev sq,
+  qp_ok eps0 qp -> ev_ok f n ev ->
+  forall w, WInv f n w ->
+  (forall mt, 0 < mt ->
+     WInv f n (fst (w_ask eps0 tol qp ev w mt)) /\ Solved eps0 (fst (w_ask eps0 tol qp ev w mt)) /\
+     0 <= a_delta (snd (w_ask eps0 tol qp ev w mt)) /\ a_fx (snd (w_ask eps0 tol qp ev w mt)) = bfx (w_b w)) /\
+  (Solved eps0 w ->
+     WInv f n (w_serious eps0 kp w (e_f (w_pt w))) /\ WInv f n (w_null eps0 kp w) /\
+     forall best, WInv f n (fst (w_momentum eps0 two kp ev sq w best))) /\
+  (keep_ok eps0 kp -> WCap w -> Solved eps0 w ->
+     WCap (w_serious eps0 kp w (e_f (w_pt w))) /\ WCap (w_null eps0 kp w) /\
+     forall best, WCap (fst (w_momentum eps0 two kp ev sq w best))).
+Proof. exact whole_ops. Qed.
+Print Assumptions C03_whole_ops.
+
+(* (1) + (2) + (3), RQB, every budget M: at the end of the run the bundle satisfies Inv, no operation was rejected (no append on
+   stale multipliers), the returned point is the bundle's centre with state.fx() = f(centre) <= f(x0) (monotone: the m1 test with
+   delta >= 0 derived from Inv); under keep_ok the capacity is never reached; and if the solver reports `converged` the centre
+   satisfies f(x) - f(z) <= tol + tol |x - z| for all z, hence under sharpness f(x) - f* <= 2 tol (1 + d) *)
+Theorem C03_whole_rqb : forall (f : vec -> Q) (n : nat) eps0 tol mdn qp kp ev P M max_size x0 lo hi calls0,
+  qp_ok eps0 qp -> ev_ok f n ev -> (1 <= p_cost P)%Z -> cs_params_ok P -> 0 <= p_m1 P -> 0 <= mdn -> 0 < lo -> lo <= hi ->
+  (3 <= max_size)%Z -> 0 <= tol ->
+  let R := whole_rqb eps0 tol mdn qp kp ev P M (w_start eps0 ev n max_size x0 lo hi calls0) in
+  let w := s_or (o_final R) in
+  let b := w_b w in
+  (Inv f n b /\ w_rej w = false) /\
+  (keep_ok eps0 kp -> w_over w = false /\ (Z.of_nat (length (bcuts b)) < bcap b)%Z) /\
+  (w_sx w = bx b /\ s_fx (o_final R) == f (bx b) /\ s_fx (o_final R) <= e_f (ev 0%nat x0)) /\
+  (o_exit R = EDone 1 ->
+     (forall z d, length z = n -> 0 <= d -> norm2 (vsub (bx b) z) <= d * d -> f (bx b) - f z <= tol + tol * d) /\
+     (forall xs fs d, sharp f n xs fs -> tol <= 1 # 2 -> 0 <= d ->
+        f (bx b) - fs <= 2 * tol /\ f (bx b) - fs <= 2 * tol * (1 + d))).
+Proof. exact whole_rqb_thm. Qed.
+Print Assumptions C03_whole_rqb.
+
+(* FPBA: the returned point w_sx is the best evaluated one (f(x_ret) <= f(centre), <= f(x0)); the certificate of the stopping
+   test is about the bundle's CENTRE (the last momentum point); the property's inequality for x_ret follows from the two *)
+Theorem C03_whole_fpba : forall (f : vec -> Q) (n : nat) eps0 tol mdn two qp kp ev sq P M max_size x0 lo hi calls0,
+  qp_ok eps0 qp -> ev_ok f n ev -> (1 <= p_cost P)%Z -> cs_params_ok P -> 0 <= mdn -> 0 < lo -> lo <= hi ->
+  (3 <= max_size)%Z -> 0 <= tol ->
+  let R := whole_fpba eps0 tol mdn two qp kp ev sq P M (w_start eps0 ev n max_size x0 lo hi calls0) in
+  let w := s_or (o_final R) in
+  let b := w_b w in
+  (Inv f n b /\ w_rej w = false) /\
+  (keep_ok eps0 kp -> w_over w = false /\ (Z.of_nat (length (bcuts b)) < bcap b)%Z) /\
+  (length (w_sx w) = n /\ s_fx (o_final R) == f (w_sx w) /\ f (w_sx w) <= f (bx b) /\ s_fx (o_final R) <= e_f (ev 0%nat x0)) /\
+  (o_exit R = EDone 1 ->
+     (forall z d, length z = n -> 0 <= d -> norm2 (vsub (bx b) z) <= d * d -> f (bx b) - f z <= tol + tol * d) /\
+     (forall xs fs d, sharp f n xs fs -> tol <= 1 # 2 -> 0 <= d ->
+        f (w_sx w) - fs <= 2 * tol /\ f (w_sx w) - fs <= 2 * tol * (1 + d))).
+Proof. exact whole_fpba_thm. Qed.
+Print Assumptions C03_whole_fpba.
+
+(* (3) the budget theorems, for the composed model: termination inside the fuel, overshoot < one (RQB) / two (FPBA) evaluations,
+   no move on a status of another call *)
+Theorem C03_whole_budget : forall eps0 tol mdn two qp kp ev sq P M s,
+  (1 <= p_cost P)%Z -> cs_params_ok P ->
+  (let R := whole_rqb eps0 tol mdn qp kp ev P M s in
+   o_exit R <> EFuel /\ (s_calls (o_final R) <= Z.max (s_calls s) (M + (p_cost P - 1)))%Z /\
+   (o_exit R = EBudget -> (M <= s_calls (o_final R))%Z) /\ o_stale R = false) /\
+  (let R := whole_fpba eps0 tol mdn two qp kp ev sq P M s in
+   o_exit R <> EFuel /\ (s_calls (o_final R) <= Z.max (s_calls s) (M + (2 * p_cost P - 1)))%Z /\
+   (o_exit R = EBudget -> (M <= s_calls (o_final R))%Z) /\ o_stale R = false).
+Proof. exact whole_budget. Qed.
+Print Assumptions C03_whole_budget.
+
+(* keep_ok cannot be dropped from the capacity clause: with every other hypothesis of C03_whole_rqb in force and a deletion
+   oracle that keeps all rows (delete_largest removing nothing: the known finding) the bundle reaches its capacity *)
+Theorem C03_whole_capacity_needs_keep_ok : exists (f : vec -> Q) (n : nat) eps0 tol mdn qp kp ev P M max_size x0 lo hi calls0,
+  qp_ok eps0 qp /\ ev_ok f n ev /\ (1 <= p_cost P)%Z /\ cs_params_ok P /\ 0 <= p_m1 P /\ 0 <= mdn /\ 0 < lo /\ lo <= hi /\
+  (3 <= max_size)%Z /\ 0 <= tol /\
+  let R := whole_rqb eps0 tol mdn qp kp ev P M (w_start eps0 ev n max_size x0 lo hi calls0) in
+  w_over (s_or (o_final R)) = true /\ w_rej (s_or (o_final R)) = false /\
+  (bcap (w_b (s_or (o_final R))) <= Z.of_nat (length (bcuts (w_b (s_or (o_final R))))))%Z.
+Proof.
+  exists fabs1, 1%nat, ex_eps0, (1 # 100), 0, ex_qp, ex_kp_all, ex_ev, ex_P, 8%Z, 3%Z, [3], (1 # 10), (1 # 10), 2%Z.
+  split; [exact ex_qp_ok|]. split; [exact ex_ev_ok|].
+  split; [vm_compute; discriminate|].
+  split; [unfold cs_params_ok; repeat split; vm_compute; reflexivity|].
+  split; [vm_compute; discriminate|]. split; [vm_compute; discriminate|]. split; [vm_compute; reflexivity|].
+  split; [vm_compute; discriminate|]. split; [vm_compute; discriminate|]. split; [vm_compute; discriminate|].
+  cbv zeta. vm_compute. repeat split; try reflexivity; discriminate.
+Qed.
+Print Assumptions C03_whole_capacity_needs_keep_ok.
+
+(* ---- non-vacuity of the WHOLE statements: a complete run with every oracle answer satisfying the stated conditions ---- *)
+Example C03_nonvacuous_whole_oracles :
+  qp_ok ex_eps0 ex_qp /\ ev_ok fabs1 1 ex_ev /\ keep_ok ex_eps0 ex_kp /\ sharp fabs1 1 [0] 0 /\
+  (1 <= p_cost ex_P)%Z /\ cs_params_ok ex_P /\ 0 <= p_m1 ex_P.
+Proof.
+  split; [exact ex_qp_ok|]. split; [exact ex_ev_ok|]. split; [exact ex_kp_ok|]. split; [exact fabs1_sharp|].
+  unfold cs_params_ok. simpl. repeat split; try lra; try lia; vm_compute; discriminate.
+Qed.
+
+(* f = |x|, x0 = 3, max_size = 3, tol = 1/100, budgets 4, 6, 8, 10 evaluations: the four outer iterations are a null step
+   (status 3, two rows), a cutting-plane step to the minimiser (status 5, the centre moves to 0, three rows), a null step whose
+   append finds the bundle full (the aggregate (1/2, 0) replaces the three rows, then the new row), and `converged` *)
+Example C03_nonvacuous_whole_rqb :
+  let st (M : Z) := let R := ex_rqb M in
+    (o_exit R, o_iters R, s_mstatus (o_final R), map Qred (bx (w_b (s_or (o_final R)))),
+     map (fun c => (map Qred (cs c), Qred (ce c))) (bcuts (w_b (s_or (o_final R)))),
+     (w_rej (s_or (o_final R)), w_over (s_or (o_final R))), w_nkp (s_or (o_final R))) in
+  st 4%Z = (EBudget, 1%nat, 3%Z, [3], [([1], 0); ([- (1)], 6)], (false, false), 1%nat) /\
+  st 6%Z = (EBudget, 2%nat, 5%Z, [0], [([1], 0); ([- (1)], 0); ([1], 0)], (false, false), 2%nat) /\
+  st 8%Z = (EBudget, 3%nat, 3%Z, [0], [([1 # 2], 0); ([- (1)], 0)], (false, false), 3%nat) /\
+  st 10%Z = (EDone 1, 4%nat, 2%Z, [0], [([1 # 2], 0); ([- (1)], 0)], (false, false), 3%nat) /\
+  st 1000%Z = st 10%Z.
+Proof. vm_compute. repeat split; reflexivity. Qed.
+
+(* FPBA (sequence 1, witness 9/4 >= 2 lambda) on the same problem: null step, cutting-plane step + momentum point, null step with
+   the aggregation, converged after 12 evaluations; the returned point is the minimiser *)
+Example C03_nonvacuous_whole_fpba :
+  let R := ex_fpba 1000 in
+  o_exit R = EDone 1 /\ o_iters R = 4%nat /\ s_calls (o_final R) = 12%Z /\ map Qred (w_sx (s_or (o_final R))) = [0] /\
+  w_rej (s_or (o_final R)) = false /\ w_over (s_or (o_final R)) = false /\ w_nkp (s_or (o_final R)) = 3%nat.
+Proof. vm_compute. repeat split; reflexivity. Qed.
